@@ -17,20 +17,21 @@ import (
 )
 
 type Prog struct {
-	fset      *token.FileSet
-	pkgs      []*packages.Package
-	byPath    map[string]*packages.Package
-	allTypes  []*types.Package
-	spec      *SpecSet
-	funcDecl  map[string]*ast.FuncDecl
-	funcPkg   map[string]*packages.Package
-	funcByKey map[string]*types.Func
-	codeRegex map[string]string // language name -> pattern (from the code)
-	rxMu      sync.Mutex
-	repoDir   string
-	specDir   string
+	fset          *token.FileSet
+	pkgs          []*packages.Package
+	byPath        map[string]*packages.Package
+	allTypes      []*types.Package
+	spec          *SpecSet
+	funcDecl      map[string]*ast.FuncDecl
+	funcPkg       map[string]*packages.Package
+	funcByKey     map[string]*types.Func
+	codeRegex     map[string]string // language name -> pattern (from the code)
+	rxMu          sync.Mutex
+	repoDir       string
+	specDir       string
 	axiomsForLang map[string][]string // language -> SMT axioms contributed by proved lemmas
-	lemmaAxioms map[string]lemmaAx
+	lemmaAxioms   map[string]lemmaAx
+	markers       []string
 }
 
 const modPath = "github.com/google/safehtml"
@@ -191,12 +192,12 @@ func numberLoops(fd *ast.FuncDecl) map[ast.Node]int {
 }
 
 type FuncReport struct {
-	Key        string
-	Obs        []*Obligation
-	Err        string // engine error (outside subset, contract drift)
-	Drift      bool
-	Trusted    []string
-	fx         *FuncCtx
+	Key     string
+	Obs     []*Obligation
+	Err     string // engine error (outside subset, contract drift)
+	Drift   bool
+	Trusted []string
+	fx      *FuncCtx
 }
 
 func (p *Prog) newFuncCtx(key string) (*FuncCtx, error) {
@@ -452,6 +453,9 @@ func (p *Prog) header(useSeq bool, specUsed, langsUsed map[string]bool, lemmas [
 		if !ok {
 			if isBuiltinSpec(n) {
 				need[n] = true
+				for _, d := range builtinSpecDeps[n] {
+					need[d] = true
+				}
 			}
 			return
 		}
@@ -621,8 +625,9 @@ const seqPrelude = `(declare-sort BSeq 0)
 (assert (forall ((b (Array Int Int)) (o Int) (l Int) (o2 Int) (l2 Int)) (! (=> (and (<= o o2) (<= 0 l2) (= (+ o2 l2) (+ o l))) (= (bs_val b o l) (bs_cat (bs_val b o (- o2 o)) (bs_val b o2 l2)))) :pattern ((bs_val b o l) (bs_val b o2 l2)))))
 `
 
-var builtinSpecOrder = []string{"hexdigl", "hexdigu", "hex2lower", "hex6upper", "utf8enc", "utf8len", "utf8dec", "bs_nth"}
+var builtinSpecOrder = []string{"iface_pack", "hexdigl", "hexdigu", "hex2lower", "hex6upper", "utf8enc", "utf8len", "utf8dec", "bs_nth"}
 var builtinSpecs = map[string]string{
+	"iface_pack": "(declare-fun iface_pack (Int BSeq) BSeq)",
 	"hexdigl":   "(define-fun hexdigl ((d Int)) Int (ite (< d 10) (+ 48 d) (+ 87 d)))",
 	"hexdigu":   "(define-fun hexdigu ((d Int)) Int (ite (< d 10) (+ 48 d) (+ 55 d)))",
 	"hex2lower": "(define-fun hex2lower ((c Int)) BSeq (bs_cat (bs_unit (hexdigl (div c 16))) (bs_unit (hexdigl (mod c 16)))))",
@@ -640,16 +645,36 @@ func isBuiltinSpec(n string) bool {
 }
 
 func (fx *FuncCtx) scriptFor(ob *Obligation) string {
-	for n, deps := range builtinSpecDeps {
-		if fx.specUsed[n] {
-			for _, d := range deps {
-				fx.specUsed[d] = true
+	fx.hdrOnce.Do(func() {
+		for n, deps := range builtinSpecDeps {
+			if fx.specUsed[n] {
+				for _, d := range deps {
+					fx.specUsed[d] = true
+				}
 			}
 		}
-	}
+		fx.hdr = fx.header()
+	})
 	var b strings.Builder
-	b.WriteString(fx.header())
+	markers := fx.prog.seqMarkers()
+	seqFree := !mentionsAny(ob.Goal, markers)
+	if seqFree {
+		// the goal does not talk about sequences: drop every assumption that does (sound: fewer
+		// hypotheses), which keeps the quantified sequence axioms out of the solver's way
+		for _, l := range strings.Split(fx.hdr, "\n") {
+			if strings.HasPrefix(l, "(assert") && mentionsAny(l, markers) {
+				continue
+			}
+			b.WriteString(l)
+			b.WriteString("\n")
+		}
+	} else {
+		b.WriteString(fx.hdr)
+	}
 	for _, l := range fx.lines[:ob.Prefix] {
+		if seqFree && strings.HasPrefix(l, "(assert") && mentionsAny(l, markers) {
+			continue
+		}
 		b.WriteString(l)
 		b.WriteString("\n")
 	}
@@ -657,4 +682,37 @@ func (fx *FuncCtx) scriptFor(ob *Obligation) string {
 	fmt.Fprintf(&b, "(assert (not %s))\n", ob.Goal)
 	b.WriteString("(check-sat)\n(get-model)\n")
 	return b.String()
+}
+
+func mentionsAny(t string, markers []string) bool {
+	for _, m := range markers {
+		if strings.Contains(t, m) {
+			return true
+		}
+	}
+	return false
+}
+
+// seqMarkers lists the symbols whose presence means a term talks about ghost sequences.
+func (p *Prog) seqMarkers() []string {
+	p.rxMu.Lock()
+	defer p.rxMu.Unlock()
+	if p.markers != nil {
+		return p.markers
+	}
+	m := []string{"bs_", "inlang_", "BSeq", "(hex2lower ", "(hex6upper ", "(utf8enc ", "(utf8dec "}
+	for n, sf := range p.spec.Funcs {
+		isSeq := sf.Ret == "seq"
+		for _, pa := range sf.Params {
+			if pa.Type == "seq" {
+				isSeq = true
+			}
+		}
+		if isSeq {
+			m = append(m, "("+n+" ")
+		}
+	}
+	// functions defined through sequence functions are found by their definitions mentioning a marker
+	p.markers = m
+	return m
 }
